@@ -133,3 +133,35 @@ def small_order_points():
         for k in (1, 3, 5, 7):
             pts.append(ed_mul(k, t))
     return pts
+
+
+def limb_combinations(rng, per=2):
+    """values whose 51-bit limbs are drawn from a tiny alphabet {0, r, all-ones} (every combination): inputs on which
+    mistakes in limb folds / comparisons (a `^` for a `|`, a dropped limb, two limbs compared with each other) show, which
+    no random value and no single-limb pattern reaches"""
+    M = 2**51 - 1
+    out = []
+    for _ in range(per):
+        r = rng.randrange(1, 2**51)
+        alpha = (0, r, M)
+        for code in range(3**5):
+            ls = []
+            c = code
+            for _i in range(5):
+                ls.append(alpha[c % 3])
+                c //= 3
+            out.append(fe_val(ls) % P)
+    return sorted(set(out))
+
+
+def chain_preimages(rng, limit=400):
+    """inputs z whose early chain values (z itself, z^2) have combinatorial limb patterns: z = t and z = sqrt(t)"""
+    out = []
+    for t in limb_combinations(rng, 1):
+        out.append(t)
+        r = sqrt(t)
+        if r is not None:
+            out.append(r)
+            out.append(P - r)
+    rng.shuffle(out)
+    return out[:limit]
